@@ -17,12 +17,12 @@ TEXT = {
    ref='4/C16'),
  'C19': dict(
    technique='deterministic simulation: seeded interleaving of concurrent AddTx/Buffered/Rebase clients against the real buffer goroutine + porcupine against a sequential model',
-   text='Seeded workloads over generated order-dependent transaction semantics; client calls are parked at the gchan hook so the buffer goroutine sees requests in seed-chosen order; the invoke/return history must linearize against the sequential pending-list model.',
+   text='Seeded workloads over generated order-dependent transaction semantics; client calls are parked at the gchan hook so the buffer goroutine sees requests in seed-chosen order, and in half of the runs the buffer goroutine is held inside the (slow) apply function so that requests queue up while an AddTx or Rebase is half done; the invoke/return history must linearize against the sequential pending-list model.',
    note='Trusts porcupine and the sequential model; the apply function returns a poisoned state next to every error so that misuse of an error result is visible.',
    ref='4/C19'),
  'C03': dict(
-   technique='deterministic simulation: 4-6 real engines with real gossip and codec under a seeded scheduler (parks at every select case, store write, strategy/driver call and message hand-off; seeded select pre-pass) with delay, reorder, duplication, replay, corruption, partitions, stalls, crash-restart and Byzantine equivocation',
-   text='Seeded search over network schedules and fault sequences of a multi-node system running the unmodified engine; agreement and contiguity of finalizations are checked at every finalize request of every correct node.',
+   technique='deterministic simulation: 4-6 real engines with real gossip and codec under a seeded scheduler (parks at every select case, store write, strategy/driver call and message hand-off; seeded select pre-pass) with delay, reorder, duplication, replay, corruption, loss with retransmission, partitions and heals, stalls, crash-restart, header sync and Byzantine vote and proposal equivocation',
+   text='Seeded search over network schedules and fault sequences of a multi-node system running the unmodified engine; agreement and contiguity of finalizations are checked at every finalize request of every correct node, agreement of the committed-header stores at every write. The net-recover part models loss with retransmission (frames to a down node are lost and resent), header sync from peers over the replayed-header channel, healing of all partitions once nothing else can run, Byzantine proposal equivocation and out-of-turn proposals, and stake that triples per height.',
    note='Correct nodes run a harness consensus strategy, application and timers; the network, Byzantine behaviour and crashes are simulated; a panic of an engine goroutine kills the worker and is classified by the runner (counted as aborted for properties other than C09). Runs are sampled, not enumerated.', ref='4/C03'),
  'C09': dict(
    technique='deterministic simulation: multi-node engine world (see C03) with crash = observation; worker exit status and silently dead component detection as oracles',
@@ -62,11 +62,11 @@ TEXT = {
    note='Correct nodes run a harness consensus strategy, application and timers; the network, Byzantine behaviour and crashes are simulated; a panic of an engine goroutine kills the worker and is classified by the runner (counted as aborted for properties other than C09). Runs are sampled, not enumerated.', ref='4/C01'),
  'C08': dict(
    technique='deterministic simulation: the real round state machine alone on its channel interface, with the mirror, timers, consensus strategy and driver played by a seeded scheduler; trace checked against an executable reference of the round rules',
-   text='Seeded search over event orders the channel interface permits (view deliveries, timer expiries, strategy answers incl. late ones, jump-aheads, catch-up) within a legal-environment contract; the reference model checks: finalize only after a shown > 2/3 precommit quorum (or a supplied committed header), next height only after the finalization is answered and stored, round changes only with a cause, at most one DecidePrecommit per round and a due one not omitted, entrances strictly increasing, strategy calls and votes for the round they were issued in, vote targets from the strategy only.',
+   text='Seeded search over event orders the channel interface permits (view deliveries incl. updates that also carry a jump-ahead, timer expiries, strategy answers incl. late ones, jump-aheads, catch-up, proposed headers arriving after peers voted on them, block-data arrivals) within a legal-environment contract; the reference model checks: finalize only after a shown > 2/3 precommit quorum (or a supplied committed header), next height only after the finalization is answered and stored, round changes only with a cause, at most one DecidePrecommit per round and a due one not omitted, entrances strictly increasing, strategy calls and votes for the round they were issued in, vote targets from the strategy only.',
    note='The simulated mirror is trusted to respect the contract in DESIGN.md (section 4/C08): truthful summaries, growing views, honest peers. Runs that end in a state machine panic are counted as aborted here and reported under C09.', ref='4/C08'),
  'C12': dict(
    technique='deterministic simulation: real StandardRoundTimer on a fake clock, seeded statement-level interleaving of its goroutine with a caller issuing start/cancel/restart sequences',
-   text='Part (b) of the property (production round timer): seeded search over caller scripts and over every interleaving point of the timer goroutine (selects with seeded pre-pass, yields between statements) on the synctest fake clock; oracle: no panic, cancelled never elapses, never early, every start returns, armed timers fire. Part (a) (state-machine timer discipline: at most one outstanding timer, none for a round that was left) is decided by the sm-timers part on the real state machine.',
+   text='Part (b) of the property (production round timer): seeded search over caller scripts and over every interleaving point of the timer goroutine (selects with seeded pre-pass, yields between statements) on the synctest fake clock; oracle: no panic, cancelled never elapses, never early, every start returns, armed timers fire. Part (a) (state-machine timer discipline: at most one outstanding timer, none for a round that was left, no stale timer acted upon: a panic of the timer-elapse handler is a violation of this part) is decided by the sm-timers part on the real state machine.',
    note='The caller respects its side of the contract (no start while a timer is outstanding). A panic of the timer goroutine kills the worker process and is classified by the runner.',
    ref='4/C12'),
  'C14': dict(
